@@ -19,6 +19,7 @@ def run(ctx):
         "(quick: k in {1,2,3,4,8} rotated over the points; thorough: every k in 1..8) connect and then stall FOR EVER at one point each: nothing sent after connect, "
         "first 20 bytes of a real TLS ClientHello (TLS endpoints; and after a StartTLS 101), inside the HTTP request line / after the websocket "
         "upgrade (ws, wss), inside the first socketace request line, between the two handshake requests (200 read), after the StartTLS 101, after "
+        "the complete announce request / the complete handshake followed by the end of all polling (dns: the server's answer or next keep-alive frame is never fetched), "
         "the complete handshake (silent / 64 bytes that are no smux frame); dns peers are real tunnel clients (full tunnel negotiation done, session "
         "allocated and polled) that never speak, plus dns-version-only (query-type probe + version request, the request that allocates the session, "
         "then not one more query) and dns-options-only (version + every option/probe command, never a packet request); udp peers are real KCP sessions. THEN 1-3 real clients (own client command, own upstream object) connect "
